@@ -173,6 +173,9 @@ pub fn on_call_issued(w: &mut World, cidx: usize) {
     w.stats.eval("R03a", ctx3);
     if sum < a as u128 + fee {
         w.violate("C03", "R03a", "R03a|underfunded".into(), format!("pay({hex}) with held sum {sum} < amount {a} + fee {fee}; held={held:?}"));
+        // the same event seen from C11: an outgoing payment was started for an incomplete set
+        w.stats.eval("R11a", 2);
+        w.violate("C11", "R11a", "R11a|pay-for-incomplete-set".into(), format!("pay({hex}) started although the held HTLCs total {sum} < amount {a} + fee {fee}"));
     }
     let maxfee = amount_param(params.get("maxfee"));
     w.stats.eval("R03b", ctx3);
